@@ -105,8 +105,15 @@ def build_group(client, kinds, key):
 def replay_case(ctx, kinds, key_kind, chain_ix, variant=0):
     """Real fill().sign().hash() against the independent interpretation."""
     from ..fakenode import b58check, b58decode
-    from ..opclient import make_client, make_key
-    key = make_key(key_kind)
+    from ..opclient import make_client, make_key, fresh_key
+    # other accounts of the same kind have signed in this process before and their Key objects are gone: nothing of them may stick to this key
+    import gc
+    for n in range(1, 2 if key_kind == 'tz4' else 7):
+        k = fresh_key(key_kind, 100 + n)
+        k.sign(b'\x03' + bytes([n]) * 8)
+        del k
+    gc.collect()
+    key = fresh_key(key_kind)
     payload = CHAIN_PAYLOADS[chain_ix - 1]
     chain_id = b58check(bytes([87, 82, 0]), payload)
     client, node = make_client(key, chain_ctr=5 + variant, chain_id=chain_id)      # the variant changes the counters, hence the signed bytes
@@ -158,6 +165,26 @@ def replay_case(ctx, kinds, key_kind, chain_ix, variant=0):
     if got_hash != want_hash:
         ok = False
         ctx.mismatch('C23:hash', 'hash() = %s, Blake2b-256(forged || raw signature) in base58 "o" = %s (%s, %s)' % (got_hash, want_hash, list(kinds), key_kind), case)
+    # a group derived from one that already carries a hash (as returned by send / send_async) is a new group: signed and hashed by its own bytes
+    if not consensus and kinds[0] in MANAGER:
+        from pytezos.operation.group import OperationGroup
+        sent = OperationGroup(context=signed.context, contents=signed.contents, protocol=signed.protocol, chain_id=signed.chain_id, branch=signed.branch,
+                              signature=signed.signature, opg_hash=want_hash)
+        last = dict(signed.contents[-1])
+        last['counter'] = str(int(last['counter']) + 1)
+        try:
+            derived = sent.operation(last).sign()
+            dforged = bytes.fromhex(derived.forge())
+            _, draw = decode_signature(derived.signature)
+            dwant = b58check(bytes([5, 116]), blake2b32(dforged + draw))
+            dgot = derived.hash()
+            if dforged == forged or dgot != dwant or not verify(key_kind, pk, draw, b'\x03' + dforged):
+                ok = False
+                ctx.mismatch('C23:derived-group:%s' % ('hash' if dgot != dwant else 'signature'), 'group derived (one more content) from a sent group: hash() = %s, Blake2b-256(forged || raw signature) = %s, signature %s' % (
+                    dgot, dwant, 'verifies' if verify(key_kind, pk, draw, b'\x03' + dforged) else 'does not verify'), case)
+        except Exception as e:   # noqa
+            ok = False
+            ctx.mismatch('C23:derived-group:raises', 'deriving from a sent group raised %s: %s' % (type(e).__name__, str(e)[:200]), case)
     return ok
 
 
